@@ -79,8 +79,8 @@ def gen_multiset(rng):
     seen = set()
     while len(keys) < nkeys:
         k = int(rng.choice([1, 2, 3, 9]))
-        rate = round(float(rng.choice([0.01, 0.02, 0.05, 0.1, 0.15, 0.2,
-                                       0.3])), 4)
+        rate = round(float(rng.choice([0.0, 0.01, 0.02, 0.05, 0.1, 0.15,
+                                       0.2, 0.3, 1.0])), 4)
         bias = str(rng.choice(['depol', 'z']))
         em = {'name': 'PauliErrorModel', 'parameters': (
             {'r_x': 1 / 3, 'r_y': 1 / 3, 'r_z': 1 / 3,
@@ -116,6 +116,8 @@ def gen_multiset(rng):
         inputs = {'code': CODES[k], 'error_model': em, 'decoder': dec,
                   'error_rate': rate,
                   'method': {'name': 'direct', 'parameters': {}}}
+        if rate == 0.0 and rng.random() < 0.5:
+            inputs['error_rate'] = 0        # a grid starting at integer 0
         keys.append({'inputs': inputs, 'k': k, 'ee': ee.tolist(),
                      'big': T > 255,
                      'cs': cs.tolist(), 'succ': succ.tolist(),
